@@ -40,7 +40,7 @@ ATOMS = [(), (2,), (3, 2), (2, 1, 3)]
 PROFILES = [[3], [2, 0], [0, 2], [1, 2, 3], [0, 0, 4], [2, 0, 3, 0, 1, 4, 2]]
 ORIGIN = {'darr': 0, 'numpymemmap': 0, 'idl': 0, 'julia': 1, 'maple': 1, 'mathematica': 1, 'matlab': 1, 'R': 1, 'scilab': 1}
 TABLELANG = {'julia': 'julia_ver1'}
-MUST_HIT = ['after-history-on-live-handle', 'handle-opened-by-relative-path'] + ['lang:' + l for l in LANGS] + [f'atomrank:{i}' for i in range(4)] + ['zero-length-subarray', 'withheld', 'offered', 'no-values',
+MUST_HIT = ['call:positional-arguments', 'path:via-symlink-dotdot', 'churn:ask-append-empties-ask', 'churn:ask-trunc-empties-ask', 'after-history-on-live-handle', 'handle-opened-by-relative-path'] + ['lang:' + l for l in LANGS] + [f'atomrank:{i}' for i in range(4)] + ['zero-length-subarray', 'withheld', 'offered', 'no-values',
                                                                                  'path:rel', 'path:base', 'path:abs', 'len:1', 'len:2', 'len>=3'] + \
            ['indextype:' + t for t in INDEXTYPES]
 ORD = {'first': 1, 'second': 2, 'third': 3}
@@ -67,7 +67,29 @@ def make_ragged(spec, path):
         items.append(np.ascontiguousarray(pool[pos:pos + ln]))
         pos += ln
     churn = spec.get('churn')
-    if items and churn == 'trunc-last':
+    if items and churn in ('ask-append-empties-ask', 'ask-trunc-empties-ask'):
+        # between two requests for code only zero-length subarrays come or go (the values array does not change at all)
+        k = len(items)
+        while k > 1 and len(items[k - 1]) == 0:
+            k -= 1
+        empt = np.zeros((0,) + atom, dt)
+        if churn == 'ask-append-empties-ask':
+            ra = darr.asraggedarray(path, items[:k], dtype=dt, indextype=spec['it'], accessmode='r+')
+            ra.readcode(spec['lang'])
+            ra.readcodelanguages
+            if items[k:]:
+                ra.iterappend(items[k:])
+            else:       # no trailing empty subarrays in this profile: two come and one goes... and the other one goes
+                ra.append(empt)
+                ra.append(empt)
+                ra.readcode(spec['lang'])
+                darr.truncate_raggedarray(ra, len(items) + 1)
+                darr.truncate_raggedarray(ra, len(items))
+        else:
+            ra = darr.asraggedarray(path, items + [empt, empt], dtype=dt, indextype=spec['it'], accessmode='r+')
+            ra.readcode(spec['lang'])
+            darr.truncate_raggedarray(ra, len(items))
+    elif items and churn == 'trunc-last':
         # the last thing that happened to the handle is a truncation (after it had been asked for code at the larger length)
         extra = [np.ascontiguousarray(pool[:1]), np.ascontiguousarray(pool[:min(len(pool), 2)])]
         ra = darr.asraggedarray(path, items + extra, dtype=dt, indextype=spec['it'], accessmode='r+')
@@ -167,7 +189,20 @@ def _execute(ctx, spec):
             finally:
                 os.chdir(old)
         else:
-            code = ra.readcode(lang, abspath=(pm == 'abs'), basepath=(basepath if pm == 'base' else None))
+            if spec.get('via') == 'symlink-dotdot':
+                # the same ragged array, reached through <other>/deep/sl/../x.darr where sl is a symlink into the array's parent:
+                # collapsing '..' lexically would name <other>/deep/x.darr (a decoy ragged array) instead
+                out.cls('path:via-symlink-dotdot')
+                os.makedirs(os.path.join(other, 'deep'))
+                os.makedirs(os.path.join(root, 'data', 'sub'))
+                os.symlink(os.path.join(root, 'data', 'sub'), os.path.join(other, 'deep', 'sl'))
+                darr.asraggedarray(os.path.join(other, 'deep', 'x.darr'), [[9, 9, 9]], dtype='int8')
+                ra = darr.RaggedArray(os.path.join(other, 'deep', 'sl', '..', 'x.darr'))
+            if spec.get('seed', 1) % 4 == 3 or spec.get('positional'):
+                out.cls('call:positional-arguments')
+                code = ra.readcode(lang, pm == 'abs', basepath if pm == 'base' else None)
+            else:
+                code = ra.readcode(lang, abspath=(pm == 'abs'), basepath=(basepath if pm == 'base' else None))
         want_offer = offered_by_docs(lang, vt, itp)
         if (code is not None) != want_offer:
             out.viol('offer-rule-mismatch', f'{lang}:{vt}:{itp}', f'code is {"offered" if code is not None else "withheld"} for values {vt} / indices {itp}; '
@@ -315,7 +350,7 @@ def extra_specs():
         for lens in ([2, 3, 1], [1, 0, 4, 2]):
             yield {'lang': lang, 'vt': 'int16', 'it': 'int32', 'atom': [2], 'lens': lens, 'bo': '<', 'pm': 'rel', 'seed': 3, 'churn': True}
         for lens in ([3], [2, 1], [1, 0, 4, 2], [2, 0]):
-            for churn in ('trunc-last',):
+            for churn in ('trunc-last', 'ask-append-empties-ask', 'ask-trunc-empties-ask'):
                 yield {'lang': lang, 'vt': 'float32', 'it': 'int64', 'atom': [], 'lens': lens, 'bo': '<', 'pm': 'rel', 'seed': 5, 'churn': churn}
                 yield {'lang': lang, 'vt': 'int16', 'it': 'int32', 'atom': [2], 'lens': lens, 'bo': '>', 'pm': 'abs', 'seed': 6, 'churn': churn}
     # path modes
@@ -324,6 +359,8 @@ def extra_specs():
             for atom in ((), (3, 2)):
                 yield {'lang': lang, 'vt': 'int32', 'it': 'int64', 'atom': list(atom), 'lens': [1, 0, 2], 'bo': '>', 'pm': pm, 'seed': 2}
                 yield {'lang': lang, 'vt': 'int32', 'it': 'int64', 'atom': list(atom), 'lens': [1, 0, 2], 'bo': '>', 'pm': pm, 'seed': 2 + len(atom), 'relopen': True}
+                yield {'lang': lang, 'vt': 'int32', 'it': 'int64', 'atom': list(atom), 'lens': [1, 0, 2], 'bo': '>', 'pm': pm, 'seed': 2, 'via': 'symlink-dotdot'}
+                yield {'lang': lang, 'vt': 'int32', 'it': 'int64', 'atom': list(atom), 'lens': [1, 0, 2], 'bo': '>', 'pm': pm, 'seed': 2, 'positional': True}
 
 
 @st.composite
@@ -334,8 +371,8 @@ def st_spec(draw):
         lens[draw(st.integers(0, len(lens) - 1))] = 1
     return {'lang': draw(st.sampled_from(LANGS)), 'vt': draw(st.sampled_from(NUMTYPES)), 'it': draw(st.sampled_from(INDEXTYPES)), 'atom': atom,
             'lens': lens, 'bo': draw(st.sampled_from('<>')), 'pm': draw(st.sampled_from(['rel', 'base', 'abs'])), 'seed': draw(st.integers(0, 2 ** 20)),
-            'churn': draw(st.sampled_from([False, False, True, 'trunc-last'])),
-            'relopen': draw(st.booleans())}
+            'churn': draw(st.sampled_from([False, False, True, 'trunc-last', 'ask-append-empties-ask', 'ask-trunc-empties-ask'])),
+            'relopen': draw(st.booleans()), 'via': draw(st.sampled_from([None, None, None, 'symlink-dotdot']))}
 
 
 def task_enum(ctx, col, shard, stride):
